@@ -349,6 +349,29 @@ _DELEGATE = {'iadd': 'Add', 'isub': 'Sub', 'imul': 'Mult'}
 _OPTXT = {'Add': '+=', 'Sub': '-=', 'Mult': '*=', 'Div': '/='}
 
 
+# parameter names (after self) of the methods a vector method may delegate to; opname() refreshes the
+# table from the analysed tree so that keyword arguments are bound to the callee's real signature
+_SIGS = {'iadd': ['val', 'idxs'], 'isub': ['val', 'idxs'], 'imul': ['val', 'idxs'],
+         'set_val': ['val', 'idxs'], 'set_vec': ['vec']}
+
+
+def _bind_call(c, m):
+    """(first argument, second argument or None) of a delegating call, keywords bound by name; else None."""
+    sig = _SIGS.get(m)
+    if sig is None or any(isinstance(a, ast.Starred) for a in c.args) or len(c.args) > len(sig):
+        return None
+    vals = dict(zip(sig, c.args))
+    for k in c.keywords:
+        if k.arg is None or k.arg not in sig or k.arg in vals:
+            return None
+        vals[k.arg] = k.value
+    return vals.get(sig[0]), (vals.get(sig[1]) if len(sig) > 1 else None)
+
+
+_UFUNC_AT = {f'{np_}.{u}.at': op for np_ in ('np', 'numpy')
+             for u, op in (('add', 'Add'), ('subtract', 'Sub'), ('multiply', 'Mult'))}
+
+
 class Eff:
     """Normalised effect of one event on this vector's data."""
 
@@ -382,16 +405,17 @@ def effects(st):
         elif ev.kind == 'call':
             c = ev.a
             m = astx.callee_attr(c)
-            if astx.path(astx.receiver(c)) == 'self' and m in _DELEGATE and not c.keywords and \
-                    1 <= len(c.args) <= 2:
-                out.append(Eff('inplace', ev, _DELEGATE[m], 'live', c.args[1] if len(c.args) == 2 else None,
-                               c.args[0]))
-            elif astx.path(astx.receiver(c)) == 'self' and m == 'set_val' and not c.keywords and \
-                    1 <= len(c.args) <= 2:
-                out.append(Eff('set', ev, None, 'delegate', c.args[1] if len(c.args) == 2 else None, c.args[0]))
-            elif astx.path(astx.receiver(c)) == 'self' and m == 'set_vec' and not c.keywords and \
-                    len(c.args) == 1 and isinstance(c.args[0], ast.Name):
-                v = ast.Call(func=ast.Attribute(value=_copy(c.args[0]), attr='asarray', ctx=ast.Load()),
+            nm = astx.call_name(c) or ''
+            if nm in _UFUNC_AT and len(c.args) == 3 and not c.keywords and self_kind(c.args[0]):
+                out.append(Eff('inplace', ev, _UFUNC_AT[nm], 'unbuffered', c.args[1], c.args[2]))
+                continue
+            b = _bind_call(c, m) if astx.path(astx.receiver(c)) == 'self' else None
+            if b is not None and m in _DELEGATE and b[0] is not None:
+                out.append(Eff('inplace', ev, _DELEGATE[m], 'live', b[1], b[0]))
+            elif b is not None and m == 'set_val' and b[0] is not None:
+                out.append(Eff('set', ev, None, 'delegate', b[1], b[0]))
+            elif b is not None and m == 'set_vec' and isinstance(b[0], ast.Name) and b[1] is None:
+                v = ast.Call(func=ast.Attribute(value=_copy(b[0]), attr='asarray', ctx=ast.Load()),
                              args=[], keywords=[])
                 out.append(Eff('set', ev, None, 'delegate', None, v))
             else:
@@ -465,6 +489,10 @@ def check_update(chk, effs, kind, op, want_idx, val_check, allow_raw=False):
         return
     if e.skind == 'copy':
         chk.bad(st, 'operates on a copy of the data, the vector itself is unchanged', 'copy')
+        return
+    if e.skind == 'unbuffered':
+        chk.bad(st, f'`{astx.src(e.ev.a)[:70]}` is the UNBUFFERED ufunc.at: an index that occurs k times is updated '
+                f'k times, whereas NumPy `data[idx] {_OPTXT.get(e.op, e.op)} val` applies it once', 'unbuffered')
         return
     if e.skind == 'temp':
         chk.bad(st, f'updates a local bound to `{astx.src(e.ev.a)}` taken beforehand: for an integer or '
@@ -697,7 +725,11 @@ def _read_kind(chk, e, st):
     if k in ('live', 'copy'):
         return True
     if k == 'raw':
-        chk.unsure(st, 'reads self._data (may carry a stale imaginary part) instead of self.asarray()')
+        chk.bad(st, 'reads the raw storage self._data instead of self.asarray(): on a complex-allocated vector '
+                'with complex step off the result includes stale imaginary parts (asarray() is the real view)',
+                'raw-read')
+    elif k == 'realview':
+        chk.bad(st, 'reads self._data.real: under complex step the imaginary part is dropped', 'raw-read')
     return False
 
 
@@ -760,6 +792,10 @@ def _sq_norm_arg(e):
 @rule('C33.opname', floor=13)
 def opname(repo, out):
     """Each arithmetic method performs the NumPy operation its name promises, in place on asarray()."""
+    for m in list(_SIGS):
+        f = repo.try_func(DVEC, f'DefaultVector.{m}')
+        if f is not None:
+            _SIGS[m] = params(f)[1:]
     _op_indexed(repo, out, 'iadd', 'Add')
     _op_indexed(repo, out, 'isub', 'Sub')
     _op_indexed(repo, out, 'imul', 'Mult')
@@ -1971,6 +2007,15 @@ selftest(
            "        if val == 0.0:\n            return  # nothing to add\n\n        data = self.asarray()\n        data += (val * vec.asarray())", 'C33.opname'),
     Mutant('scal-vec-skip-falsy', DVEC, "        data = self.asarray()\n        data += (val * vec.asarray())",
            "        if val:\n            data = self.asarray()\n            data += (val * vec.asarray())", 'C33.opname'),
+    Mutant('dunder-keyword-wrong-method', DVEC, "            self.isub(vec.asarray())", "            self.iadd(val=vec.asarray())", 'C33.opname'),
+    Mutant('dunder-keyword-as-index', DVEC, "            self.imul(vec.asarray())", "            self.imul(1.0, idxs=vec.asarray())", 'C33.opname'),
+    Mutant('dunder-keyword-self-operand', DVEC, "            self.iadd(vec.asarray())", "            self.iadd(val=self.asarray())", 'C33.opname'),
+    Mutant('isub-ufunc-at', DVEC, _ISUB, "        np.subtract.at(self.asarray(), idxs, val)", 'C33.opname'),
+    Mutant('add-to-slice-ufunc-at', VEC, "        self.asarray()[slc] += val.flat", "        np.add.at(self.asarray(), slc, val.flat)", 'C33.opname'),
+    Mutant('norm-raw-storage', DVEC, "        return np.linalg.norm(self.asarray())", "        return np.linalg.norm(self._data)", 'C33.opname'),
+    Mutant('dot-raw-storage', DVEC, "        return np.dot(self.asarray(), vec.asarray())", "        return np.dot(self._data, vec.asarray())", 'C33.opname'),
+    Mutant('get-slice-raw-storage', VEC, "        return self.asarray()[slc]", "        return self._data[slc]", 'C33.opname'),
+    Mutant('scale-norm-nl-adder', DVEC, "                self._scale_forward(self._nlvec._scaling[0], None)", "                self._scale_forward(*self._nlvec._scaling)", 'C33.roundtrip'),
     Mutant('set-val-real-view', DVEC, "        self._data[idxs] = val", "        data = self.asarray()\n        data[idxs] = val",
            'C33.opname'),
     Mutant('set-val-dot-real', DVEC, "        self._data[idxs] = val", "        self._data.real[idxs] = val", 'C33.opname'),
@@ -2096,6 +2141,11 @@ selftest(
     Twin('twin-norm-sqrt', DVEC, "        return np.linalg.norm(self.asarray())", "        x = self.asarray()\n        return np.sqrt(np.dot(x, x))"),
     Twin('twin-iadd-slice-temp', DVEC, _IADD, "        data = self.asarray()[:]\n        data[idxs] += val"),
     Twin('twin-dot-inner', DVEC, "        return np.dot(self.asarray(), vec.asarray())", "        return np.inner(vec.asarray(), self.asarray())"),
+    Twin('twin-dunder-keyword-early-return', DVEC, "        if isinstance(vec, Vector):\n            self.isub(vec.asarray())\n        else:\n            data = self.asarray()\n            data -= vec\n        return self",
+         "        if not isinstance(vec, Vector):\n            arr = self.asarray()\n            arr -= vec\n            return self\n\n        self.isub(val=vec.asarray())\n        return self"),
+    Twin('twin-set-vec-keyword', DVEC, "        self.set_val(vec.asarray())", "        self.set_val(idxs=_full_slice, val=vec.asarray())"),
+    Twin('twin-norm-get-data', DVEC, "        return np.linalg.norm(self.asarray())", "        return np.linalg.norm(self._get_data())"),
+    Twin('twin-isub-direct-copy-false', DVEC, _ISUB, "        self.asarray(copy=False)[idxs] -= val"),
     Twin('twin-set-val-local-raw', DVEC, "        self._data[idxs] = val", "        data = self._data\n        data[idxs] = val"),
     Twin('twin-set-val-asarray', DVEC, "        self.set_val(vec.asarray())", "        self._data[:] = vec.asarray()"),
     Twin('twin-asarray-ifexp', DVEC, "        if copy:\n            return arr.copy()\n\n        return arr", "        return arr.copy() if copy else arr"),
